@@ -159,8 +159,46 @@ pub fn query(an: &Analysis, fs: &MemFs, q: &Value) -> Value {
                 }
             }
         },
+        "idents" => match file(1) {
+            None => json!("no-file"),
+            Some(f) => {
+                let text = fs.files.get(fs.path_for_file(&f)).cloned().unwrap_or_default();
+                let p = syntax::parse(&text);
+                let mut v = Vec::new();
+                for el in p.syntax_node().descendants_with_tokens() {
+                    if let Some(t) = el.as_token() {
+                        if t.kind() == syntax::syntax_kind::SyntaxKind::Id {
+                            v.push(json!([u32::from(t.text_range().start()), u32::from(t.text_range().end()), t.text()]));
+                        }
+                    }
+                }
+                Value::Array(v)
+            }
+        },
         _ => json!("bad-query"),
     }
+}
+
+#[cfg(feature = "verif")]
+fn oplog(an: &Analysis, fs: &MemFs) -> Value {
+    use ide::verif_hooks::SymbolOp;
+    ide::verif_hooks::clear();
+    let _ = an.index();
+    let ops = ide::verif_hooks::take();
+    Value::Array(
+        ops.into_iter()
+            .map(|op| match op {
+                SymbolOp::Define { name, loc } => json!(["D", name, fs.path_str(loc.file), u32::from(loc.range.start()), u32::from(loc.range.end())]),
+                SymbolOp::DefineAnon { name, loc } => json!(["A", name, fs.path_str(loc.file), u32::from(loc.range.start()), u32::from(loc.range.end())]),
+                SymbolOp::Reference { symbol, loc } => json!(["R", symbol, fs.path_str(loc.file), u32::from(loc.range.start()), u32::from(loc.range.end())]),
+            })
+            .collect(),
+    )
+}
+
+#[cfg(not(feature = "verif"))]
+fn oplog(_an: &Analysis, _fs: &MemFs) -> Value {
+    json!("no-hook")
 }
 
 pub fn build(spec: &Value) -> (AnalysisHost, MemFs, FileId) {
@@ -191,6 +229,11 @@ pub fn run(rest: &str) -> String {
     let (host, fs, _root) = build(&spec);
     let an = host.analysis();
     let mut out = Vec::new();
+    let ops = if spec["oplog"].as_bool() == Some(true) {
+        Some(std::panic::catch_unwind(std::panic::AssertUnwindSafe(|| oplog(&an, &fs))).unwrap_or(json!({"panic": "index"})))
+    } else {
+        None
+    };
     if let Some(qs) = spec["queries"].as_array() {
         for q in qs {
             let r = std::panic::catch_unwind(std::panic::AssertUnwindSafe(|| query(&an, &fs, q)));
@@ -207,5 +250,8 @@ pub fn run(rest: &str) -> String {
             });
         }
     }
-    Value::Array(out).to_string()
+    match ops {
+        Some(ops) => json!({"r": out, "ops": ops}).to_string(),
+        None => Value::Array(out).to_string(),
+    }
 }
